@@ -37,7 +37,6 @@ import (
 	"github.com/tendermint/tendermint/libs/autofile"
 	"github.com/tendermint/tendermint/types"
 
-	"verif/verdict"
 )
 
 type raceCfg struct {
@@ -82,7 +81,7 @@ func (r raceRec) is(c canon) bool {
 	return r.End == c.End && r.H == c.H && r.R == c.R && r.Step == c.Step
 }
 
-func runRaceCase(c *verdict.Ctx, idx int, base string) {
+func runRaceCase(c vctx, idx int, base string) {
 	r := c.Rand("rotation-race", idx)
 	cfg := raceCfg{HeadLimit: int64(150 + r.Intn(2500)), Ops: 40 + r.Intn(120), Rotator: r.Intn(2) == 0}
 	if r.Intn(3) == 0 {
@@ -379,40 +378,3 @@ func runRaceCase(c *verdict.Ctx, idx int, base string) {
 	}
 }
 
-func runRace(c *verdict.Ctx, base string) {
-	c.Assume("rotation-race family: the operation sequence is seeded, the interleaving of the writer with the group's ticker and with the RotateFile goroutine is left to the scheduler (counts vary between runs); RotateFile is exported and takes the group mutex like the ticker's call, so a rotation between any two Group.Write calls is a schedule the node can produce")
-	if rp := c.Replay(); rp != "" {
-		var w raceWitness
-		if err := verdict.LoadReplay(rp, &w); err == nil && w.Stream == "rotation-race" {
-			for i := 0; i < 200 && c.Violations() == 0; i++ { // the schedule is not replayable: repeat
-				runRaceCase(c, w.Index, base)
-			}
-		}
-		return
-	}
-	n := c.N(1500, 30000)
-	if s := os.Getenv("VERIF_C15_RACE_N"); s != "" { // debugging aid
-		fmt.Sscan(s, &n)
-	}
-	workers := runtime.NumCPU()
-	jobs := make(chan int, 64)
-	var wg sync.WaitGroup
-	for w := 0; w < workers; w++ {
-		wg.Add(1)
-		go func() {
-			defer wg.Done()
-			for i := range jobs {
-				runRaceCase(c, i, base)
-			}
-		}()
-	}
-	for i := 0; i < n; i++ {
-		jobs <- i
-	}
-	close(jobs)
-	wg.Wait()
-	c.Set("rotation_race_runs", n)
-	if c.Counter("race_rotations") == 0 {
-		c.HarnessError("C15a rotation-race family observed nothing: no rotation happened")
-	}
-}
